@@ -660,7 +660,7 @@ func main() {
 	}
 	n := 450
 	if a.Thorough() {
-		n = 12000
+		n = 8000
 	}
 	for _, sp := range corpus() {
 		runStore(out, sp, "corpus")
